@@ -274,6 +274,11 @@ class Client:
             parts = [self._mk_reward(p, path + (i,)) for i, p in enumerate(spec['parts'])]
             f = (reward_fs.factory('reduce_sum', reward_functions=parts) if via_factory
                  else functools.partial(reg['reduce_sum'], reward_functions=parts))
+        elif spec['name'] == 'reduce':
+            parts = [self._mk_reward(p, path + (i,)) for i, p in enumerate(spec['parts'])]
+            red = {'max': max, 'min': min, 'sum': sum, 'first': lambda v: list(v)[0], 'last': lambda v: list(v)[-1]}[spec['reduction']]
+            f = (reward_fs.factory('reduce', reward_functions=parts, reduction=red) if via_factory
+                 else functools.partial(reg['reduce'], reward_functions=parts, reduction=red))
         elif via_factory:
             f = reward_fs.factory(spec['name'], **reward_kwargs(spec))  # the component's own factory(name, **kwargs)
         else:
